@@ -254,7 +254,11 @@ def correspondence(ck, binpath, n_traces, n_events):
     ck.cov["distribution"]["corr_lexer_texts_with_non_ascii"] = sum(1 for c in cases if any(x > 127 for x in c["t"]))
 
     # (3) the token pump: replay the recorded operation sequence of the real parser through the model pump
-    tables = c01_tables.extract(REPO)
+    try:
+        tables = c01_tables.extract(REPO, check_transcription_anchors=False)
+    except c01_tables.TableError as ex:
+        ck.tie_broken("table translator lib/c01_tables.py: %s" % ex, "")
+        return
     tkidx = {n: i for i, n in enumerate(tables["token_kinds"])}
     trivia = {tkidx[n] for n in tables["pump_trivia"]}
     try:
